@@ -224,8 +224,19 @@ Definition instr_has_escaping_name (i : instr) : bool :=
 (** * Part 2: what the matchers mean *)
 
 Section Sem.
-  Variable glob_str : nat -> name -> option bool.
-  Variable glob_path : nat -> path -> option bool.
+  Variable O : oracles.
+
+  (** an external answer: [None] also when the library / program reports HARD_ERROR *)
+  Definition sem2 (o : option (option bool)) : option bool :=
+    match o with Some (Some b) => Some b | _ => None end.
+
+  Fixpoint sem_tm (m : tmatcher) (c : list N) : option bool :=
+    match m with
+    | TEmpty => Some (match c with [] => true | _ => false end)
+    | TEquals c' => Some (text_eqb c c')
+    | TOpaque k => sem2 (text_matches O k c)
+    | TNot m' => option_map negb (sem_tm m' c)
+    end.
 
   (** The files of [-recursive [-min-depth mn] [-max-depth mx]] below directory [t] (links to
       directories are followed), [d] = depth of the direct contents of [t]:
@@ -322,13 +333,16 @@ Section Sem.
     | FType TFile => Some (is_file (e_node e))       (* "symbolic links are followed (unless TYPE is symlink)" *)
     | FType TDir => Some (is_dir (e_node e))
     | FType TSymlink => Some (is_symlink (e_node e))
-    | FName part pat => glob_str pat (name_part part (last_name (e_abs e)))
-    | FPath pat => glob_path pat (e_abs e)
+    | FName part pat => glob_str O pat (name_part part (last_name (e_abs e)))
+    | FPath pat => glob_path O pat (e_abs e)
+    | FNameRe part pat => re_str O pat (name_part part (last_name (e_abs e)))
+    | FPathRe pat => re_path O pat (e_abs e)
     | FContents tm =>                                (* "HARD_ERROR for files that are not regular files" *)
         match resolve (e_node e) with
-        | Some (File c) => Some (eval_tm tm c)
+        | Some (File c) => sem_tm tm c
         | _ => None
         end
+    | FRun prog => sem2 (run_exit0 O prog (e_abs e)) (* "matches iff its exit code is 0" *)
     | FDirContents cfg sm =>                         (* "HARD_ERROR for files that are not directories" *)
         if is_dir (e_node e)
         then sem_fsm sm (SModel (e_node e) (e_abs e) cfg (fun _ => Some true) (fun _ => Some false))
@@ -496,6 +510,10 @@ Record mcase := MCase {
   mc_matcher : fmatcher;
   mc_glob_str : list (nat * name * bool);
   mc_glob_path : list (nat * path * bool);
+  mc_re_str : list (nat * name * bool);
+  mc_re_path : list (nat * path * bool);
+  mc_text : list (nat * list N * option bool);       (* [None]: the text matcher gave HARD_ERROR *)
+  mc_run : list (nat * path * option bool);
   mc_verdict : verdict }.
 
 Fixpoint tab_str (tab : list (nat * name * bool)) (k : nat) (s : name) : option bool :=
@@ -509,6 +527,17 @@ Fixpoint tab_path (tab : list (nat * path * bool)) (k : nat) (s : path) : option
   | (k', s', b) :: tab' => if Nat.eqb k k' && path_eqb s s' then Some b else tab_path tab' k s
   end.
 
+Fixpoint tab_str2 (tab : list (nat * name * option bool)) (k : nat) (s : name) : option (option bool) :=
+  match tab with
+  | [] => None
+  | (k', s', b) :: tab' => if Nat.eqb k k' && name_eqb s s' then Some b else tab_str2 tab' k s
+  end.
+Fixpoint tab_path2 (tab : list (nat * path * option bool)) (k : nat) (s : path) : option (option bool) :=
+  match tab with
+  | [] => None
+  | (k', s', b) :: tab' => if Nat.eqb k k' && path_eqb s s' then Some b else tab_path2 tab' k s
+  end.
+
 Definition verdict_eqb (a b : verdict) : bool :=
   match a, b with
   | VPass, VPass | VFail, VFail | VHardError, VHardError | VValidationError, VValidationError
@@ -518,13 +547,16 @@ Definition verdict_eqb (a b : verdict) : bool :=
 
 Definition id_order : path -> dirc -> dirc := fun _ l => l.
 
+Definition mc_oracles (c : mcase) : oracles :=
+  Oracles (tab_str (mc_glob_str c)) (tab_path (mc_glob_path c)) (tab_str (mc_re_str c)) (tab_path (mc_re_path c))
+          (tab_str2 (mc_text c)) (tab_path2 (mc_run c)).
+
 Definition check_mcase (c : mcase) : bool * bool :=
-  let gs := tab_str (mc_glob_str c) in
-  let gp := tab_path (mc_glob_path c) in
-  let model := run_assert id_order gs gp (mc_root_name c) (mc_root c) (mc_matcher c) in
+  let O := mc_oracles c in
+  let model := run_assert id_order O (mc_root_name c) (mc_root c) (mc_matcher c) in
   ( verdict_eqb model (mc_verdict c),
     if fm_valid (mc_matcher c)
-    then match sem_fm gs gp (mc_matcher c) (root_elem (mc_root c) [mc_root_name c]) with
+    then match sem_fm O (mc_matcher c) (root_elem (mc_root c) [mc_root_name c]) with
          | Some true => verdict_eqb (mc_verdict c) VPass
          | Some false => verdict_eqb (mc_verdict c) VFail
          | None => (* the manual prescribes HARD_ERROR for a file that is consulted; a lazy
@@ -543,8 +575,8 @@ Record rcase := RCase {
   rc_cond : fcond;
   rc_verdict : verdict }.
 
-Definition no_glob_str : nat -> name -> option bool := fun _ _ => None.
-Definition no_glob_path : nat -> path -> option bool := fun _ _ => None.
+Definition no_oracles : oracles :=
+  Oracles (fun _ _ => None) (fun _ _ => None) (fun _ _ => None) (fun _ _ => None) (fun _ _ => None) (fun _ _ => None).
 
 Definition check_rcase (c : rcase) : bool * bool :=
   match run_instrs (rc_instrs c) (Dir []) with
@@ -553,7 +585,7 @@ Definition check_rcase (c : rcase) : bool * bool :=
       | Some sub =>
           let m := FDirContents (Rec None None) (SMatches true (rc_cond c)) in
           let rels := map e_rel (listing sub [] [rc_dir c]) in
-          ( verdict_eqb (run_assert id_order no_glob_str no_glob_path (rc_dir c) sub m) (rc_verdict c),
+          ( verdict_eqb (run_assert id_order no_oracles (rc_dir c) sub m) (rc_verdict c),
             (* the condition names exactly the files of the populated directory, and it holds *)
             Nat.eqb (length (fc_names (rc_cond c))) (length rels)
             && forallb (fun r => mem_path r (fc_names (rc_cond c))) rels
@@ -569,8 +601,7 @@ Definition check_case (c : case) : bool * bool :=
 
 (** Whether the declarative semantics is defined (statistics of the run). *)
 Definition sem_defined (c : mcase) : bool :=
-  match sem_fm (tab_str (mc_glob_str c)) (tab_path (mc_glob_path c)) (mc_matcher c)
-               (root_elem (mc_root c) [mc_root_name c]) with
+  match sem_fm (mc_oracles c) (mc_matcher c) (root_elem (mc_root c) [mc_root_name c]) with
   | Some _ => true
   | None => false
   end.
